@@ -2,7 +2,6 @@ package dart
 
 import "strings"
 
-
 // HC02_dartKind: the Dart union routines dispatch on the Go member names under Kind/Data.
 func HC02_dartKind() { dartKind("C02") }
 
